@@ -1069,6 +1069,8 @@ def run_entry(family, case, ctx):
         try:
             operands, call = sut(entry.make, ops, L)
         except LibError as e:
+            if e.where == "?":       # no basic_robotics frame in the traceback: the builder itself is broken
+                raise HarnessError("operand builder of %s failed: %s" % (entry.name, e))
             ctx.label("setup raised:%s" % entry.name)
             ctx.note("setup", str(e))
             return
